@@ -850,6 +850,8 @@ class Engine:
         return self.to_v(a) == self.to_v(b)
 
     def contains(self, container, item, st):
+        if isinstance(container, str) and isinstance(item, str):
+            return z3.BoolVal(item in container)      # substring test on two literal strings
         if isinstance(container, (tuple, list)):
             if not container:
                 return z3.BoolVal(False)
@@ -861,6 +863,13 @@ class Engine:
         if isinstance(container, Ref) and container.kind == "dict":
             cell = st.heap[container.base]
             return z3.Select(cell["dom"], self.to_v(item))
+        if isinstance(container, Ref) and container.kind == "list":
+            cell = st.heap[container.base]
+            if "items" not in cell:
+                raise Unsupported("'in' on a list of tuples")
+            items = cell["items"]
+            x = self.to_sort(item, items.range())
+            return self.S.exists(0, cell["n"], lambda i: z3.Select(items, i) == x)
         if isinstance(container, Opq):
             f = z3.Function("contains", V, V, z3.BoolSort())
             return f(container.t, self.to_v(item))
@@ -901,6 +910,11 @@ class Engine:
         if isinstance(op, ast.Add) and ((isinstance(a, (list, tuple)) and isinstance(b, Opq)) or
                                         (isinstance(b, (list, tuple)) and isinstance(a, Opq))):
             return Opq(z3.Function("fn:concat", V, V, V)(self.to_v(a), self.to_v(b)))
+        if (isinstance(op, (ast.BitOr, ast.BitAnd, ast.BitXor)) and (isinstance(a, Opq) or isinstance(b, Opq))) or \
+                (isinstance(op, ast.Sub) and isinstance(a, Opq) and isinstance(b, Opq) and self.cur is not None
+                 and getattr(self.cur, "opaque_sub", False)):
+            # set algebra / bit operations on opaque values: an uninterpreted function of the operands
+            return Opq(z3.Function("fn:" + type(op).__name__, V, V, V)(self.to_v(a), self.to_v(b)))
         x, y = self.to_int(a), self.to_int(b)
         if isinstance(op, ast.Add):
             return x + y
@@ -933,6 +947,9 @@ class Engine:
             if dotted in consts:
                 return k(consts[dotted], st)
             return k(Named(dotted), st)
+
+        if dotted is not None and self.cur is not None and dotted in self.cur.attrs:
+            return self.cur.attrs[dotted](self, st, fr, k, e)
 
         def cont(v, s):
             return self.getattr(v, e.attr, s, fr, k, e)
@@ -1211,7 +1228,17 @@ class Engine:
         """Single-generator comprehensions.  Concrete sequences are unrolled; an array / opaque iterable is
         treated with the arbitrary-element rule (element expressions are assumed free of side effects)."""
         if len(e.generators) != 1 or e.generators[0].is_async:
-            raise Unsupported("nested comprehension")
+            if any(x.is_async for x in e.generators):
+                raise Unsupported("async comprehension")
+
+            # several generators: supported only as an opaque value built from an opaque outer iterable
+            def outer(it, s0):
+                if not isinstance(it, Opq):
+                    raise Unsupported("nested comprehension over a non-opaque iterable")
+                self.assumptions.add(f"nested comprehension at line {e.lineno} of {self.cur.key}: element expressions have no "
+                                     "side effects and do not raise; the result is an opaque value")
+                return k(Opq(self.fresh(f"comp_{self.comp_ordinal(e)}", "V")), s0)
+            return self.ev(e.generators[0].iter, st, fr, outer)
         g = e.generators[0]
 
         def with_iter(it, s0):
@@ -1249,7 +1276,7 @@ class Engine:
                     return go(0, s0)
                 except _UndecidedFilter:
                     cid = self.comp_ordinal(e)
-                    return k(Opq(z3.Const(f"comp:{self.cur.qualname.split('.')[-1]}:{cid}", V)), s0)
+                    return k(Opq(self.fresh(f"comp_{cid}", "V")), s0)
             # ``[x for x in L if cond(x)]`` over a heap list: the sub-list of the elements satisfying cond, in order
             if kind == "list" and isinstance(it, Ref) and it.kind == "list" and len(g.ifs) == 1 \
                     and isinstance(e.elt, ast.Name) and isinstance(g.target, ast.Name) and e.elt.id == g.target.id:
@@ -1275,7 +1302,7 @@ class Engine:
                 elem = Opq(self.fresh("elem", "V"))
                 self.comp_n = getattr(self, "comp_n", {})
                 cid = self.comp_ordinal(e)
-                res = Opq(z3.Const(f"comp:{self.cur.qualname.split('.')[-1]}:{cid}", V))
+                res = Opq(self.fresh(f"comp_{cid}", "V"))
 
                 def bound(s2):
                     exprs = list(g.ifs) + ([e.key, e.value] if kind == "dict" else [e.elt])
@@ -1509,6 +1536,11 @@ class Engine:
             if attr in decl and decl[attr] == "V" and not isinstance(v, Opq):
                 v = Opq(self.to_v(v))
             return k(st.with_cell(obj.base, attr, v))
+        hooks = self.cur.store_hooks if self.cur is not None else {}
+        h = hooks.get("attr:" + attr, hooks.get("attr:*"))
+        if h is not None and isinstance(obj, Opq):
+            # attribute store on an opaque object: only what the contract's hook records of it is tracked
+            return k(h(self, st, obj, v, node))
         raise Unsupported(f"attribute store on {type(obj).__name__}")
 
     def store(self, base, idx, v, st, k, node):
